@@ -618,6 +618,44 @@ def rectilinear_polygon(rng):
     return pts, swap, steps
 
 
+def long_polygon_case(ctx, rng, k):
+    """a contour with more than 512 (sometimes more than 1024) edges, its vertex numbering rotated so that the edge
+    511 -> 512 (or 1023 -> 1024) lies on the upper boundary, requested abscissae on exactly those edges"""
+    import virocon as v
+    swap = rng.random() < 0.5
+    if k % 3 == 2:
+        kind = "IFORM-720"
+        c = v.IFORMContour(random_model(rng), 10 ** rng.uniform(-3, -1), n_points=rng.choice([720, 600, 1100]))
+        pts = [[float(x), float(y)] for x, y in c.coordinates]
+    else:
+        kind = "fine-polygon"
+        n = rng.choice([520, 600, 720, 1030, 1100])
+        R, cx, cy = rng.choice([1.0, 5.0, 0.01]), rng.uniform(-3, 8), rng.uniform(-3, 8)
+        ex, ey, m, amp, ph = rng.uniform(0.5, 2), rng.uniform(0.5, 2), rng.choice([0, 2, 3, 5]), rng.uniform(0.0, 0.25), rng.uniform(0, 6.28)
+        pts = []
+        for i in range(n):
+            a = 2 * math.pi * i / n
+            r = R * (1 + amp * math.sin(m * a + ph))
+            pts.append([cx * R + ex * r * math.cos(a), cy * R + ey * r * math.sin(a)])
+        if rng.random() < 0.5:
+            pts.reverse()
+    n = len(pts)
+    py = [p[0] if swap else p[1] for p in pts]
+    top = max(range(n), key=lambda i: py[i])
+    target = rng.choice([511, 512] + ([1023, 1024] if n > 1030 else []))
+    r = (top - target) % n                       # after the rotation the top vertex has index `target`
+    pts = pts[r:] + pts[:r]
+    px = [p[1] if swap else p[0] for p in pts]
+    steps = []
+    for e in (511, 1023, 1535):
+        if e + 1 < n or e + 1 == n:
+            a, b = px[e], px[(e + 1) % n]
+            steps.append(a + rng.choice([0.5, 0.3, 0.7]) * (b - a))
+    steps += [rng.uniform(min(px), max(px)) for _ in range(rng.randrange(0, 2))]
+    rng.shuffle(steps)
+    return {"kind": kind, "coords": pts, "swap": swap, "steps": steps, "vertex_stream": False, "steps_type": "list", "coords_dtype": "float"}
+
+
 SCALE_EXPONENTS = [-20, -17, -13, -10, -7, 7, 10, 13, 17, 20]
 
 
@@ -707,7 +745,27 @@ def gen_ix_case(rng):
     return c
 
 
+def long_curve_ix_case(rng):
+    """first curve with more than 512 segments, the second one crosses it on segment 511 (and 1023)"""
+    n = rng.choice([520, 700, 1030, 1100])
+    xs = sorted(rng.uniform(0, 100) for _ in range(n + 1))
+    f = rng.uniform(0.05, 0.3)
+    c1 = [[x, 3 * math.sin(f * x) + 0.2 * math.cos(1.7 * x)] for x in xs]
+    c2 = []
+    for e in (511, 1023):
+        if e + 1 <= n:
+            (ax, ay), (bx, by) = c1[e], c1[e + 1]
+            t = rng.choice([0.5, 0.35, 0.6])
+            mx, my = ax + t * (bx - ax), ay + t * (by - ay)
+            c2 += [[mx - 0.013, my - 2.0], [mx + 0.011, my + 2.5]]
+    if rng.random() < 0.5:
+        c2 = c2[::-1]
+    return {"kind": "long-first-curve", "c1": c1, "c2": c2}
+
+
 def _gen_ix_case(rng):
+    if rng.random() < 0.03:
+        return long_curve_ix_case(rng)
     mode = rng.choice(["walk", "walk", "walk", "graphs", "lattice", "polygon-line", "grid-offset", "grid-offset"])
     if mode == "grid-offset":
         # both polylines on one grid, the second shifted by half a cell: exactly parallel segments with
@@ -812,8 +870,9 @@ def shrink_dc(vu, case, sig):
     if isinstance(c["steps"], list):
         st = vlib.shrink_list(c["steps"], lambda xs: fails(dict(c, steps=list(xs))), min_len=1)
         c = dict(c, steps=st)
-    co = vlib.shrink_list(c["coords"], lambda ps: len(ps) >= 3 and fails(dict(c, coords=list(ps))), min_len=3)
-    c = dict(c, coords=co)
+    if len(c["coords"]) <= 300:      # (a failure that needs hundreds of vertices is not worth hundreds of oracle runs)
+        co = vlib.shrink_list(c["coords"], lambda ps: len(ps) >= 3 and fails(dict(c, coords=list(ps))), min_len=3)
+        c = dict(c, coords=co)
     mag = max([abs(v) for p_ in c["coords"] for v in p_] + [1e-300])
     shift = max(0, -int(math.floor(math.log10(mag))))        # decimals are counted from the leading digit of the coordinates
     for dec in (0, 1, 2, 3, 5):
@@ -838,6 +897,8 @@ def shrink_ix(vi, case, sig):
 
     c = dict(case)
     for name in ("c1", "c2"):
+        if len(c[name]) > 300:
+            continue
         pts = vlib.shrink_list(c[name], lambda ps: len(ps) >= 2 and fails(dict(c, **{name: list(ps)})), min_len=2)
         c = dict(c, **{name: pts})
     return c
@@ -913,6 +974,7 @@ def run(ctx):
     n_ix = ctx.n(300, 5000)
     dc_cases = [gen_dc_case(ctx, rng, k, n_real) for k in range(n_dc)]
     ix_cases = [gen_ix_case(rng) for _ in range(n_ix)]
+    dc_cases += [long_polygon_case(ctx, rng, k) for k in range(ctx.n(6, 60))]
     # fixed corpus: the shapes behind the two repaired defects and the documented example
     dc_cases += [
         {"kind": "corpus", "coords": [[0, 0], [2, 1], [3, 3], [1, 2]], "swap": False, "steps": [2.0], "vertex_stream": True},
@@ -1088,7 +1150,8 @@ def run(ctx):
         if s2 is None:
             small, s2, msg2 = ix_cases[i], s, msg
         found[_sigkey(s)] = True
-        ctx.violation(s2, "intersection(%r, %r): %s" % (small["c1"], small["c2"], msg2), {"function": "intersection", "c1": small["c1"], "c2": small["c2"]})
+        show = lambda pts: pts if len(pts) <= 8 else "<%d points>" % len(pts)   # noqa
+        ctx.violation(s2, "intersection(%r, %r): %s" % (show(small["c1"]), show(small["c2"]), msg2), {"function": "intersection", "c1": small["c1"], "c2": small["c2"]})
 
     ctx.cov["rule"] = ("design-condition cases: contours of random Weibull/log-normal models (IFORM, ISORM, direct sampling) and random star-shaped / convex / "
                        "rounded polygons (positive, mixed and negative coordinates), steps None / int / lists inside, outside, duplicated, through vertices, "
